@@ -261,7 +261,7 @@ def diff_states(a, b, skip=(), rtol=1e-9, loose=None):
 GAP = 1e-6
 
 
-def cur_reference(kind, direction, X, y, prefix, k, mixing=None):
+def cur_reference(kind, direction, X, y, prefix, k, mixing=None, gap=None):
     """Reference importance score in state "prefix selected" (as of a refresh in that state).
 
     Returns dict(pi, gap_ok, exhausted): pi = sum of squares over the top-k right (feature) /
@@ -269,6 +269,7 @@ def cur_reference(kind, direction, X, y, prefix, k, mixing=None):
     eigenvectors of the PCovR-modified covariance / Gram matrix built from the residual X and
     the unexplained part of y (PCov-CUR). gap_ok is the judgeability rule of DESIGN §3.5."""
     X = np.asarray(X, float)
+    gap = GAP if gap is None else gap
     prefix = [int(i) for i in prefix]
     uniq = sorted(set(prefix))
     Xr = residual_after(X, uniq, direction)
@@ -279,9 +280,9 @@ def cur_reference(kind, direction, X, y, prefix, k, mixing=None):
         if sv.size == 0 or sv[0] <= 1e-9 * max(smax, 1e-300):
             return dict(pi=None, gap_ok=False, exhausted=True)
         nxt = sv[k] if k < sv.size else 0.0
-        gap_ok = k <= sv.size and (sv[k - 1] - nxt) / sv[0] > GAP
+        gap_ok = k <= sv.size and (sv[k - 1] - nxt) / sv[0] > gap
         vec = Vt[:k].T if direction == "feature" else U[:, :k]
-        return dict(pi=(vec ** 2).sum(axis=1), gap_ok=bool(gap_ok), exhausted=False)
+        return dict(pi=(vec ** 2).sum(axis=1), gap_ok=bool(gap_ok), exhausted=False, Xr=Xr)
     Y = np.asarray(y, float).reshape(X.shape[0], -1)
     if direction == "feature":
         if uniq:
@@ -305,10 +306,10 @@ def cur_reference(kind, direction, X, y, prefix, k, mixing=None):
     if abs(w[0]) <= 1e-12 * max(1.0, smax ** 2):
         return dict(pi=None, gap_ok=False, exhausted=True)
     nxt = w[k] if k < w.size else 0.0
-    gap_ok = ok and k <= w.size and (w[k - 1] - nxt) / scale > GAP
+    gap_ok = ok and k <= w.size and (w[k - 1] - nxt) / scale > gap
     # residual singular values in the grey zone make the inverse square root ambiguous
     if sv_r.size and smax > 0:
         rel = sv_r / smax
         if ((rel > 1e-12) & (rel < 1e-6)).any():
             gap_ok = False
-    return dict(pi=(V[:, :k] ** 2).sum(axis=1), gap_ok=bool(gap_ok), exhausted=bool(exhausted))
+    return dict(pi=(V[:, :k] ** 2).sum(axis=1), gap_ok=bool(gap_ok), exhausted=bool(exhausted), Xr=Xr, Yr=Yr)
